@@ -654,8 +654,8 @@ func cmdCheck(prop, tier string) int {
 		}
 		b := time.Duration(float64(budget) * sc.Share)
 		scq := sc
-		if tier == "quick" && sc.Count > 0 {
-			// quick tier of an enumeration: budget-bounded seeded subset
+		if tier == "quick" && sc.Count > 20000 {
+			// quick tier of a large enumeration: budget-bounded seeded subset
 			scq.Count = 0
 		}
 		if scq.Count == 0 {
@@ -796,7 +796,7 @@ func cmdCheck(prop, tier string) int {
 			"distinct_nontrivial":   len(total.nontrivial),
 			"rule":                  spec.Rule + " A run is non-trivial when it completed its workload (or at least one operation) and at least one fault fired, a pre-emption happened or two goroutines were runnable at once; distinct = distinct schedule signatures (hash of the sequence of (event kind, scheduling site / network event) of the run).",
 			"samples":               samples,
-			"exhaustive":            exhaustive && tier == "thorough",
+			"exhaustive":            exhaustive,
 			"distinct_trace_digests": len(total.digests),
 			"runs_per_hour":         int(float64(total.evals) / wall * 3600),
 			"simulated_seconds":     total.simMs / 1000,
